@@ -1,10 +1,10 @@
 SPECIFICATION Spec
 CONSTANTS
   Ns = {4, 6}
-  Rs = {1, 2, 3}
+  Rs = {2, 3}
   Spans = {1, 3}
   Mashes = {1, 2}
-  Tofs = {51, 71, 72, 93}
+  Tofs = {51, 72, 93}
   TofN = 4
   TofR = 2
 INVARIANTS InvGeom InvG2 InvRefuse InvCommute InvSubset InvConserve InvNest InvTofK InvMapDef InvInverse InvExtend InvDownsample
